@@ -85,6 +85,7 @@ func getNamedStructEncoder(t reflect.Type) ValueEncoder {
 func newNamedStructEncoder(t reflect.Type, name string, tag ...string) *structEncoder {
 	encoder := &structEncoder{}
 	registerNamedStructEncoder(t, encoder)
+	verifYield("structenc.published", t)
 	fields := getFields(t, tag...)
 	n := len(fields)
 	var metadata []byte
